@@ -356,26 +356,27 @@ func engineRender(ch *chart.Chart, top chartutil.Values, dns bool) (s engSnap) {
 	return engSnap{Files: out}
 }
 
-func engDiff(a, b engSnap) string {
+// engDiff returns the kind of difference (stable, part of signatures) and a witness.
+func engDiff(a, b engSnap) (kind, detail string) {
 	if a.Err != b.Err {
-		return fmt.Sprintf("outcome: A err=%q B err=%q", a.Text, b.Text)
+		return "success/failure outcome", fmt.Sprintf("A err=%q B err=%q", a.Text, b.Text)
 	}
 	if a.Err {
-		return ""
+		return "", ""
 	}
 	for _, k := range sortedNames(a.Files) {
 		v, ok := b.Files[k]
 		if !ok {
-			return "file set: " + k + " missing in B"
+			return "set of rendered files", k + " missing in B"
 		}
 		if v != a.Files[k] {
-			return "content of " + k + ": " + firstDiff(a.Files[k], v)
+			return "content of a rendered file", k + ": " + firstDiff(a.Files[k], v)
 		}
 	}
 	if len(a.Files) != len(b.Files) {
-		return "file set: B has extra files"
+		return "set of rendered files", "B has extra files"
 	}
-	return ""
+	return "", ""
 }
 
 // ---------------------------------------------------------------- environment manipulation
